@@ -125,3 +125,63 @@ def random_var_renaming(rng, RG):
     pool = [c for c in 'ABCDEFGHIJKLMNOPQRSTUVWXYZ']
     rng.shuffle(pool)
     return rename_vars(RG, dict(zip(vs, pool[:len(vs)]))) if len(vs) <= 26 else RG
+
+
+def unit_cycle_grammar(rng, k=None):
+    """k variables on a cycle of unit rules, extra unit chords / side exits, every variable with its own
+    terminal alternatives listed before or after the unit alternatives"""
+    k = k or rng.randint(2, 6)
+    vs = rng.sample('ABCDEFGHIJKLMNOPQRSUVWXYZ', k)
+    ts = 'abc'
+    R = []
+    own = {A: [(T(ts[i % 3]), T('x')) if i % 2 == 0 else (T(ts[i % 3]),) for _ in range(1)] for i, A in enumerate(vs)}
+    for i, A in enumerate(vs):
+        alts = [(V(vs[(i + 1) % k]),)]
+        for _ in range(rng.randint(0, 2)):
+            alts.append((V(rng.choice(vs)),))
+        alts += own[A]
+        if rng.random() < 0.3:
+            alts.append((T(rng.choice(ts)), V(rng.choice(vs))))
+        rng.shuffle(alts)
+        for a in alts:
+            if (A, a) not in R:
+                R.append((A, a))
+    start = vs[0]
+    R = [r for r in R if r[0] == start] + [r for r in R if r[0] != start]
+    used_t = sorted({x for (_, r) in R for (kk, x) in r if kk == 'T'})
+    return cf.make(vs, used_t, R, start)
+
+
+def redundant_cnf(rng):
+    """CNF grammar in which several variables derive the same subwords by different rules"""
+    ts = list('ab')[:rng.randint(1, 2)]
+    tv = {}
+    names = list('ABCDEFGHIJKLMNOPQRUVWXYZ')
+    rng.shuffle(names)
+    R = []
+    term_vars = []
+    for t in ts:
+        for _ in range(rng.randint(1, 3)):
+            A = names.pop()
+            term_vars.append(A)
+            R.append((A, (T(t),)))
+    mids = []
+    for _ in range(rng.randint(2, 5)):
+        X = names.pop()
+        for _ in range(rng.randint(1, 2)):
+            pool = term_vars + mids
+            r = (X, (V(rng.choice(pool)), V(rng.choice(pool))))
+            if r not in R:
+                R.append(r)
+        mids.append(X)
+    S = 'S'
+    for _ in range(rng.randint(1, 3)):
+        pool = term_vars + mids
+        r = (S, (V(rng.choice(pool)), V(rng.choice(pool))))
+        if r not in R:
+            R.append(r)
+    if rng.random() < 0.3:
+        R.append((S, (T(rng.choice(ts)),)))
+    R = [r for r in R if r[0] == S] + [r for r in R if r[0] != S]
+    vs = sorted({A for (A, _) in R})
+    return cf.make(vs, ts, R, S)
